@@ -43,6 +43,7 @@ type Ctx struct {
 	CoverNeed   map[string]bool
 	scratch     []string
 	validating  int
+	cli         string
 	suppressed  int
 }
 
